@@ -860,7 +860,7 @@ func TestC26(t *testing.T) {
 
 	w := kit.NewWorld(t, 1)
 	ch := w.Chains[0]
-	n := c.N(60, 90)
+	n := c.N(60, 250)
 	for i := 0; i < n; i++ {
 		if c.SkipCase(i) {
 			continue
